@@ -121,7 +121,7 @@ static void dec_build(dec_tls_t *t, int nd, size_t size, const char *family)
  * kind K_DATA/K_LOW: fail[] are data indexes, ip[] the parities to use.
  * returns 0 when the property holds.
  */
-static int dec_case(dec_tls_t *t, dec_t *f, int np, int nr, const int *fail, const int *ip)
+static int dec_case(dec_tls_t *t, dec_t *f, int np, int nr, const int *lostset, const int *ip)
 {
 	stripe_t *st = &t->st;
 	const int nd = t->nd;
@@ -132,7 +132,7 @@ static int dec_case(dec_tls_t *t, dec_t *f, int np, int nr, const int *fail, con
 	void *v[MAXBLK];
 	int bad = 0;
 
-	fmt_set(fs, sizeof(fs), fail, nr);
+	fmt_set(fs, sizeof(fs), lostset, nr);
 	fmt_set(is, sizeof(is), ip, f->kind == K_REC ? 0 : nr);
 	snprintf(rp, sizeof(rp), "cmd=dec mode=%d fns=%s nds=%d sizes=%zu families=%s np=%d fail=%s ip=%s seed=%llu",
 		D_mode, f->name, nd, size, t->family, np, fs, is, (unsigned long long)D_seed);
@@ -142,8 +142,8 @@ static int dec_case(dec_tls_t *t, dec_t *f, int np, int nr, const int *fail, con
 	if (f->kind == K_REC) for (int j = 0; j < np; ++j) valid[j] = 1;
 	else for (int j = 0; j < nr; ++j) valid[ip[j]] = 1;
 	for (int i = 0; i < nr; ++i) {
-		lost[i] = fail[i];
-		if (fail[i] >= nd) valid[fail[i] - nd] = 2; /* lost parity: must be rebuilt */
+		lost[i] = lostset[i];
+		if (lostset[i] >= nd) valid[lostset[i] - nd] = 2; /* lost parity: must be rebuilt */
 	}
 	for (int j = 0; j < 6; ++j) {
 		if (valid[j] == 1) memcpy(st->v[nd + j], dec_orig(t, nd + j), size);
@@ -156,7 +156,7 @@ static int dec_case(dec_tls_t *t, dec_t *f, int np, int nr, const int *fail, con
 	/* the functions permute the pointer vector while working: give them a private copy */
 	memcpy(v, st->v, sizeof(void *) * (nd + 6));
 	int idc[6], ipc[6];
-	for (int i = 0; i < nr; ++i) { idc[i] = fail[i]; ipc[i] = ip ? ip[i] : 0; }
+	for (int i = 0; i < nr; ++i) { idc[i] = lostset[i]; ipc[i] = ip ? ip[i] : 0; }
 
 	snprintf(t_case_key, sizeof(t_case_key), "C03/dec/%s", f->name);
 	snprintf(t_case_replay, sizeof(t_case_replay), "%s", rp);
@@ -171,7 +171,7 @@ static int dec_case(dec_tls_t *t, dec_t *f, int np, int nr, const int *fail, con
 		bad = 1;
 	}
 	for (int i = 0; i < nr; ++i)
-		if (idc[i] != fail[i] || (ip && ipc[i] != ip[i])) {
+		if (idc[i] != lostset[i] || (ip && ipc[i] != ip[i])) {
 			snprintf(key, sizeof(key), "C03/dec/%s/index-array-modified", f->name);
 			fail(key, rp, "nd=%d np=%d fail={%s} ip={%s}: index arrays modified", nd, np, fs, is);
 			bad = 1;
